@@ -44,8 +44,10 @@ type MPtr struct {
 	B string
 }
 
-func (e *MPtr) Error() string                { return fmt.Sprintf("mptr:%d:%s", e.A, e.B) }
-func (e *MPtr) MarshalJSON() ([]byte, error) { return json.Marshal(map[string]interface{}{"a": e.A, "b": e.B}) }
+func (e *MPtr) Error() string { return fmt.Sprintf("mptr:%d:%s", e.A, e.B) }
+func (e *MPtr) MarshalJSON() ([]byte, error) {
+	return json.Marshal(map[string]interface{}{"a": e.A, "b": e.B})
+}
 func (e *MPtr) UnmarshalJSON(b []byte) error {
 	var m struct {
 		A int    `json:"a"`
@@ -63,8 +65,10 @@ type MVal struct {
 	B string
 }
 
-func (e MVal) Error() string                { return fmt.Sprintf("mval:%d:%s", e.A, e.B) }
-func (e MVal) MarshalJSON() ([]byte, error) { return json.Marshal(map[string]interface{}{"a": e.A, "b": e.B}) }
+func (e MVal) Error() string { return fmt.Sprintf("mval:%d:%s", e.A, e.B) }
+func (e MVal) MarshalJSON() ([]byte, error) {
+	return json.Marshal(map[string]interface{}{"a": e.A, "b": e.B})
+}
 func (e *MVal) UnmarshalJSON(b []byte) error {
 	var m struct {
 		A int    `json:"a"`
